@@ -159,11 +159,19 @@ fn ser_s(b: &AssetBinary) -> String {
 }
 
 fn parse_s(f: &[u8]) -> String {
+    parse_m(f).0
+}
+
+/// parse + the largest single allocation request made during BinArchive::from_bytes and AssetBinary::from_archive
+fn parse_m(f: &[u8]) -> (String, usize) {
+    crate::h_alloc::reset();
     let r = BinArchive::from_bytes(f, Endian::Little).and_then(|a| AssetBinary::from_archive(&a));
-    match r {
+    let mx = crate::h_alloc::max_request();
+    let line = match r {
         Ok(b) => format!("re=ok:{} | ser2={}", show_ab(&b), ser_s(&b)),
         Err(_) => "re=err".to_string(),
-    }
+    };
+    (line, mx)
 }
 
 pub fn run(toks: &[&str]) -> String {
@@ -182,6 +190,10 @@ pub fn run(toks: &[&str]) -> String {
             }
         }
         "p" => parse_s(&parse_b(toks[1])),
+        "q" => {
+            let (line, mx) = parse_m(&parse_b(toks[1]));
+            format!("{} maxalloc={}", line, mx)
+        }
         x => panic!("asset: bad mode {}", x),
     }
 }
